@@ -1,5 +1,5 @@
-(* What C16 / C17 say about the formatter model (front/Fmt.v), and the inputs on which the model - and, replayed by
-   lib/front.py, the implementation - violates them.  Each witness is one of the committed known findings. *)
+(* What C16 / C17 say about the formatter model (front/Fmt.v), and the inputs on which the model - and the implementation -
+   violated them until the formatter was repaired. *)
 From Coq Require Import List NArith String Ascii.
 Require Import Bebop.front.Tok Bebop.front.Parse Bebop.front.Fmt.
 Import ListNotations.
@@ -43,47 +43,23 @@ Definition w_array2 : bytes := b ("struct A { int32[][] grid; }" ++ nl).
 Definition w_import : bytes := b ("import ""a.bop""" ++ nl ++ "struct A { int32 a; }" ++ nl).
 Definition w_flags : bytes := b ("[flags]" ++ nl ++ "enum F { A = 1; B = A | 2; }" ++ nl).
 
-(* how a witness fails C16: the formatter's output is rejected / is accepted as a different schema *)
-Definition output_rejected (x : bytes) : Prop :=
-  (exists f, accepted x f) /\ exists y, formats_to x y /\ read_file y false = PErr.
-Definition output_differs (x : bytes) : Prop :=
-  exists f, accepted x f /\ exists y, formats_to x y /\ exists f', accepted y f' /\ nocomment f' <> nocomment f.
-Definition not_fixed_point (x : bytes) : Prop :=
-  (exists f, accepted x f) /\ exists y, formats_to x y /\ exists z, formats_to y z /\ z <> y.
+(* how the texts above FAILED before the formatter was repaired (/repo 5007292, dc4ca5b, 9f..: see known_findings.json,
+   `fixed`): the output was rejected, or accepted as a different schema, or changed again by a second pass.  Each now
+   meets the statement's conclusion; the instances are proved by computation and replayed on the implementation. *)
+Definition holds16 (x : bytes) : Prop :=
+  exists f, accepted x f /\ exists y, formats_to x y /\ exists f', accepted y f' /\ nocomment f' = nocomment f.
+Definition holds17 (x : bytes) : Prop :=
+  exists f, accepted x f /\ exists y, formats_to x y /\ formats_to y y.
 
 Ltac compute_ok := eexists; vm_compute; reflexivity.     (* only ever on closed terms: the witnesses are supplied first *)
-Ltac run_rejected :=
-  split; [eexists; compute_ok|]; eexists; split; [compute_ok|]; vm_compute; reflexivity.
-Lemma typed_enum_rejected : output_rejected w_typed_enum. Proof. run_rejected. Qed.
-Lemma array2_rejected : output_rejected w_array2. Proof. run_rejected. Qed.
+Ltac run16 := eexists; split; [compute_ok|]; eexists; split; [compute_ok|]; eexists; split; [compute_ok|]; vm_compute; reflexivity.
+Ltac run17 := eexists; split; [compute_ok|]; eexists; split; [compute_ok|]; compute_ok.
 
-Ltac run_differs :=
-  eexists; split; [compute_ok|]; eexists; split; [compute_ok|]; eexists; split; [compute_ok|];
-  let E := fresh in intro E; vm_compute in E; discriminate E.
-Lemma import_dropped : output_differs w_import. Proof. run_differs. Qed.
-Lemma flags_differs : output_differs w_flags. Proof. run_differs. Qed.
-
-Lemma flags_not_fixed : not_fixed_point w_flags.
-Proof.
-  split; [eexists; compute_ok|]. eexists; split; [compute_ok|]. eexists; split; [compute_ok|].
-  let E := fresh in intro E; vm_compute in E; discriminate E.
-Qed.
-
-Lemma POk_inj {A} (a a' : A) s s' : POk a s = POk a' s' -> a = a'.
-Proof. intros H; injection H; auto. Qed.
-
-Lemma rejected_refutes x : output_rejected x -> ~ C16_statement.
-Proof.
-  intros [[f Hf] (y & [s Hy] & Hr)] H. destruct (H x f Hf) as (y' & [s' Hy'] & f' & [s'' Ha] & _).
-  rewrite Hy in Hy'. apply POk_inj in Hy'. subst y'. rewrite Hr in Ha. discriminate.
-Qed.
-Lemma differs_refutes x : output_differs x -> ~ C16_statement.
-Proof.
-  intros (f & Hf & y & [s Hy] & f' & [s1 Ha] & Hne) H. destruct (H x f Hf) as (y' & [s' Hy'] & f2 & [s2 Ha2] & He).
-  rewrite Hy in Hy'. apply POk_inj in Hy'. subst y'. rewrite Ha in Ha2. apply POk_inj in Ha2. subst f2. exact (Hne He).
-Qed.
-Lemma not_fixed_refutes x : not_fixed_point x -> ~ C17_statement.
-Proof.
-  intros [[f Hf] (y & Hy & z & [s Hz] & Hne)] H. destruct (H x f Hf y Hy) as [s' Hyy].
-  rewrite Hz in Hyy. apply POk_inj in Hyy. exact (Hne Hyy).
-Qed.
+Lemma typed_enum_16 : holds16 w_typed_enum. Proof. run16. Qed.
+Lemma array2_16 : holds16 w_array2. Proof. run16. Qed.
+Lemma import_16 : holds16 w_import. Proof. run16. Qed.
+Lemma flags_16 : holds16 w_flags. Proof. run16. Qed.
+Lemma typed_enum_17 : holds17 w_typed_enum. Proof. run17. Qed.
+Lemma array2_17 : holds17 w_array2. Proof. run17. Qed.
+Lemma import_17 : holds17 w_import. Proof. run17. Qed.
+Lemma flags_17 : holds17 w_flags. Proof. run17. Qed.
